@@ -208,6 +208,12 @@ def _ambient_set(phase):
     if k // 5 % 2:
         np.set_printoptions(precision=1, threshold=3, edgeitems=1, linewidth=20)
         label.append("print=tiny")
+    if k // 7 % 2:
+        import logging
+
+        saved["logging_disable"] = logging.root.manager.disable
+        logging.disable(logging.CRITICAL)
+        label.append("logging=disabled")
     _AMBIENT_SAVED = saved
     return ",".join(label)
 
@@ -235,6 +241,10 @@ def _ambient_restore():
         os.environ["TZ"] = saved["tz"]
     time.tzset()
     np.set_printoptions(**saved["print"])
+    if "logging_disable" in saved:
+        import logging
+
+        logging.disable(saved["logging_disable"])
 
 
 class Monitor:
